@@ -2,6 +2,7 @@
 # tools/run_all.sh [tier] [seeds...]: run every registered check, report exit codes
 tier="${1:-quick}"; shift
 seeds="${@:-1}"
+bad=0
 cd "$(dirname "$0")/.."
 [ -d .deps ] || ./setup.sh >/dev/null 2>&1
 for seed in $seeds; do
@@ -10,6 +11,7 @@ for seed in $seeds; do
     VERIF_SEED=$seed ./check $id --tier $tier > /tmp/run_all_$id.log 2>&1
     rc=$?
     echo "seed=$seed $id exit=$rc $(( $(date +%s) - start ))s $(grep -E 'tier=' /tmp/run_all_$id.log | cut -c1-150)"
-    [ $rc -ne 0 ] && grep -E "VIOLATION|HARNESS" /tmp/run_all_$id.log | head -5
+    if [ $rc -ne 0 ]; then bad=1; grep -E "VIOLATION|HARNESS" /tmp/run_all_$id.log | head -5; fi
   done
 done
+exit $bad
